@@ -120,6 +120,14 @@ theorem c20_x_per_document :
     doFetchLoopCalls = ["docsStream.Next", "dp.FilterDocFields", "disk.PackDocBlock", "block.SetExt1",
       "block.SetExt2", "stream.Send"] := by decide
 
+/-- the pooled `docFieldsFilter` (decoder, buffers and the request's filter) is acquired once and released exactly
+once per fetch - one `defer` right after the acquire, no second release site - so no two fetches running at the
+same time can hold the same object (the model applies the filter to each request's documents with that request's
+own field list: `filterFields` has no shared state) -/
+theorem c20_x_filter_released_once :
+    doFetchFilterPool = ["dp := acquireDocFieldsFilter(req.FieldsFilter)", "defer releaseDocFieldsFilter(dp)"] := by
+  decide
+
 /-- `tryParseFieldsFilter`: parse with a nil mapping, first `*parser.PipeFields`, `AllowList = !Except` -/
 theorem c20_x_parse_shape :
     parseFilterSteps = ["q, err := parser.ParseSeqQL(query, nil)", "if err != nil { return FetchFieldsFilter{} }",
